@@ -190,7 +190,8 @@ Inductive vop :=
 
 Inductive op :=
 | OView (i : nat) (o : vop)          (* a method of the i-th view created (0 = the MemoryIO) *)
-| OFree.                             (* MemoryIO.free() *)
+| OFree                              (* MemoryIO.free() *)
+| OFreeFault.                        (* MemoryIO.free() during which the controller's sdram_free raises *)
 
 (* _if_not_closed: `self.closed or self._parent._freed` *)
 Definition dead (fr : bool) (v : view) : bool := v_closed v || fr.
@@ -280,6 +281,12 @@ Definition step_with (vs : bool -> mem -> view -> vop -> view * option view * ou
           if st_freed st then (st, err 0)
           else (mkState (st_views st) true (st_mem st), mkOut (Ok VNone) 0 [CFree (v_start root)])
       end
+  | OFreeFault =>
+      (* sdram_free raises before `self._freed = True`: the exception comes out, nothing is freed *)
+      match st_views st with
+      | [] => (st, mkOut OtherError 0 [])
+      | _ :: _ => if st_freed st then (st, err 0) else (st, mkOut (Failed 2) 0 [])
+      end
   end.
 
 Definition step := step_with vstep.
@@ -318,6 +325,7 @@ Definition probe (st : state) (o : op) : option Z :=
       | None => None
       end
   | OFree => None
+  | OFreeFault => None
   end.
 
 (* the access a faulted operation was attempting when the controller raised *)
@@ -325,6 +333,7 @@ Definition attempted (st : state) (o : op) (out : output) : list call :=
   match o_res out, o with
   | Failed 2, OView i (FaultRead n) => o_calls (snd (step st (OView i (Read n))))
   | Failed 2, OView i (FaultWrite bs) => o_calls (snd (step st (OView i (Write bs))))
+  | Failed 2, OFreeFault => o_calls (snd (step st OFree))
   | _, _ => []
   end.
 
